@@ -748,6 +748,14 @@ pub fn run<S: Src, const P: u8, E: EncCase, const B: usize>(s: &mut S) {
     run_mode::<S, P, E, 0, B>(s)
 }
 
+/// Same, but the buffer is exactly as long as the packet (`MODE` 3): the spare
+/// capacity is concrete, so code that derives sizes from `buf.len()` stays
+/// cheap for the symbolic executor (with a symbolic capacity such code makes
+/// CBMC run out of memory instead of answering).
+pub fn run_fit<S: Src, const P: u8, E: EncCase, const B: usize>(s: &mut S) {
+    run_mode::<S, P, E, 3, B>(s)
+}
+
 /// C01 on the Get Endpoint ID response: `MODE` 1 = completion code Success
 /// excluded while its finding is open, 2 = only Success (the finding's witness).
 pub fn run_mode<S: Src, const P: u8, E: EncCase, const MODE: u8, const B: usize>(s: &mut S) {
@@ -759,8 +767,13 @@ pub fn run_mode<S: Src, const P: u8, E: EncCase, const MODE: u8, const B: usize>
     // "the endpoint's current EID" = what its response half reports
     let e = E::expect(&a, resp0);
     let prior: [u8; B] = s.arr();
-    let extra = s.usize();
-    s.assume(extra <= 8);
+    let extra = if MODE == 3 {
+        0
+    } else {
+        let x = s.usize();
+        s.assume(x <= 8);
+        x
+    };
     let explen = if e.ok { e.len() } else { if e.oversize { core::cmp::min(e.len(), B - 8) } else { 64 } };
     let cap = explen + extra;
     if MODE == 1 {
@@ -804,8 +817,13 @@ pub fn run_mode<S: Src, const P: u8, E: EncCase, const MODE: u8, const B: usize>
                 }
                 // second run: other prior content, other spare capacity → same bytes, same length
                 let prior2: [u8; B] = s.arr();
-                let extra2 = s.usize();
-                s.assume(extra2 <= 8);
+                let extra2 = if MODE == 3 {
+                    8
+                } else {
+                    let x = s.usize();
+                    s.assume(x <= 8);
+                    x
+                };
                 let mut buf2 = prior2;
                 let res2 = E::call(&ctx, &a, &mut buf2[..explen + extra2]);
                 chk!(s, P, C16, res2 == Ok(len), "length does not depend on prior content or spare capacity");
